@@ -1387,6 +1387,9 @@ struct Auto {
     hold_until: usize,
     pending_once: bool,
     steps: u32,
+    /// consecutive steps that changed nothing observable
+    stall: u32,
+    seen: String,
 }
 
 impl Auto {
@@ -1397,13 +1400,26 @@ impl Auto {
             hold_until: 0,
             pending_once: false,
             steps: 0,
+            stall: 0,
+            seen: String::new(),
         }
     }
 
     fn next(&mut self, r: &mut Runner) -> Option<String> {
         self.steps += 1;
-        if self.steps > 600 {
+        if self.steps > 400 {
             return None;
+        }
+        // a relayer that no longer reacts (only possible if the code under test changed):
+        // give the scenario up instead of waiting out the step budget
+        if r.last_dump == self.seen {
+            self.stall += 1;
+            if self.stall >= 8 {
+                return None;
+            }
+        } else {
+            self.stall = 0;
+            self.seen = r.last_dump.clone();
         }
         let o = r.h.obs();
         if !o.up {
